@@ -17,6 +17,7 @@ type streamOpts struct {
 	nesting       int
 	valid         int
 	unbalanced    int
+	long          int
 	entriesPerSrc int // how many entry points each input is given to (0 = all parser entries)
 }
 
@@ -67,7 +68,7 @@ func runStreams(ctx *harness.Ctx, o streamOpts, fn func(t harness.T, leg string,
 		idx := 0
 		for _, h := range mutate.Hostile {
 			for _, src := range []string{h, "SELECT 1; " + h, h + "; SELECT 1", "(" + h, "SELECT " + h, "SELECT 1 + " + h, "CAST(1 AS " + h, "ARRAY<" + h,
-				"SELECT * FROM " + h, "CREATE TABLE t (" + h, "INSERT INTO t (a) VALUES (" + h, "@{a=" + h, "SELECT a" + h, "f(" + h + ")", "[" + h + "]", "CASE WHEN " + h + " THEN 1 END"} {
+				"SELECT * FROM " + h, "CREATE TABLE t (" + h, "INSERT INTO t (a) VALUES (" + h, "@{a=" + h, "@{a=(" + h + ")} DELETE t x y", "@{a=[" + h + "]} UPDATE t SET", "SELECT a" + h, "f(" + h + ")", "[" + h + "]", "CASE WHEN " + h + " THEN 1 END"} {
 				idx++
 				if idx%ctx.Of != ctx.Shard {
 					continue
@@ -117,6 +118,32 @@ func runStreams(ctx *harness.Ctx, o streamOpts, fn func(t harness.T, leg string,
 		ctx.Sample(map[string]any{"leg": "mutant", "input": q(trunc(src, 300))})
 		for _, e := range drawEntries(t, kind, o.entriesPerSrc) {
 			fn(t, "mutant", e, src)
+		}
+	})
+	// long inputs: many recoveries in one parse, very long lists, one huge Bad node
+	ctx.Rapid("long", o.long, func(t *rapid.T) {
+		var src, kind string
+		switch rapid.IntRange(0, 3).Draw(t, "longkind") {
+		case 0:
+			frag := rapid.SampledFrom([]string{"SELECT 1 +", "1 +", "(1 +)", "a b", "CREATE TABLE", "x y z", "(a, b)", "SELECT (1, 2), (3, 4)", "f(", "CAST(1 AS", "DELETE t", "a[", "@{a=(1 +)} DELETE t WHERE",
+				"SELECT 1", "(1, (2))", "INSERT INTO t (a) VALUES (1 +)", "STRUCT<1>", "a.", "x IN ("}).Draw(t, "frag")
+			src = mutate.Repeat(t, frag, 320)
+		case 1:
+			c := drawGenLong(t, "", 2)
+			src, kind = c.Text, c.S.Kind
+		case 2:
+			c := drawGenLong(t, "", 2)
+			src, kind = mutate.DropAll(t, c.Text), c.S.Kind
+		default:
+			c := drawGenLong(t, "", 1)
+			src, kind = mutate.Tokens(t, c.Text, 2), c.S.Kind
+		}
+		if len(src) > 20000 {
+			src = src[:20000]
+		}
+		ctx.Sample(map[string]any{"leg": "long", "bytes": len(src), "input": q(trunc(src, 160))})
+		for _, e := range drawEntries(t, kind, 3) {
+			fn(t, "long", e, src)
 		}
 	})
 	ctx.Rapid("valid", o.valid, func(t *rapid.T) {
